@@ -19,6 +19,8 @@ func main() {
 		devCmd(os.Args[2:])
 	case "check":
 		checkCmd(os.Args[2:])
+	case "replay":
+		replayCmd(os.Args[2:])
 	case "selftest":
 		selftestCmd(os.Args[2:])
 	default:
